@@ -61,7 +61,7 @@ class Check(BaseCheck):
         specs = [{'campaign': 'sentinels'}]
         if tier == 'quick':
             for i in range(16):
-                specs.append({'campaign': 'pairs', 'pool': 30, 'seed': seed, 'i': i, 'triples': 1500})
+                specs.append({'campaign': 'pairs', 'pool': 50, 'seed': seed, 'i': i, 'triples': 6000})
         else:
             for i in range(64):
                 specs.append({'campaign': 'pairs', 'pool': 60, 'seed': seed, 'i': i, 'triples': 30000})
